@@ -166,6 +166,8 @@ type SimDA struct {
 	// Yield, when set, is called (no lock held) at the start of every read and listing: the seam for slow callers
 	// (SpinJitter).
 	Yield func()
+	// DeafSubmit: submissions do not watch the caller's context (see submit).
+	DeafSubmit bool
 	// SlowRead is how long a ReadSlowOK listing takes (default 31 s: longer than the retriever's per-request timeout).
 	SlowRead time.Duration
 	// Latency, when non-zero, is slept (simulated time, no lock held) at the start of every call (Engine N).
@@ -325,9 +327,15 @@ func (d *SimDA) NumCalls() int {
 }
 
 func (d *SimDA) submit(ctx context.Context, by string, epoch int, blobs [][]byte, fence *Fence) ([][]byte, error) {
-	d.spinGuard(ctx)
-	if err := ctx.Err(); err != nil {
-		return nil, err
+	if d.DeafSubmit {
+		// an in-process DA layer (or a client library) that does not watch the caller's context: the submission takes
+		// its time and is answered whatever happened to the caller meanwhile
+		d.spinGuard(context.Background())
+	} else {
+		d.spinGuard(ctx)
+		if err := ctx.Err(); err != nil {
+			return nil, err
+		}
 	}
 	d.mu.Lock()
 	// size limit, with the semantics of the repo's own DA implementations (DummyDA, local-da): blobs are
